@@ -41,6 +41,24 @@ pub fn cases_drainrow(f: &mut dyn FnMut(Value) -> bool) {
 
 pub fn cases(f: &mut dyn FnMut(Value) -> bool) {
     drain_cases(f, &["remove_col", "pop_col"]);
+    // the same with zero-sized cells (no addresses to tell cells apart, only counts)
+    for (c, r) in shapes(4) {
+        for op in ["remove_col", "pop_col"] {
+            if c == 0 {
+                continue;
+            }
+            let idxs: Vec<usize> = if op == "pop_col" { vec![c - 1] } else { (0..c).collect() };
+            for i in idxs {
+                for front in 0..=r {
+                    for back in 0..=r - front {
+                        if !f(json!({"scenario": "zdrain", "op": op, "shape": [c, r], "index": i, "front": front, "back": back})) {
+                            return;
+                        }
+                    }
+                }
+            }
+        }
+    }
     for (c, r) in shapes(3) {
         for kind in ["rows", "rows_mut", "col", "col_mut", "cells", "cells_mut", "into_iter_ref", "into_iter_mut", "into_iter"] {
             let len = match kind {
@@ -72,6 +90,30 @@ pub fn cases(f: &mut dyn FnMut(Value) -> bool) {
 pub fn run(case: &Value) -> Res {
     tok::reset();
     let (c, r) = (ju(&case["shape"][0]), ju(&case["shape"][1]));
+    if js(&case["scenario"]) == "zdrain" {
+        use crate::fam_insrem::{zst_array, zst_post_check, zst_reset};
+        zst_reset();
+        let mut t = zst_array(c, r);
+        let op = js(&case["op"]);
+        let index = ju(&case["index"]);
+        let (front, back) = (ju(&case["front"]), ju(&case["back"]));
+        let res = catch(|| {
+            let mut d = if op == "remove_col" { t.remove_col(index) } else { t.pop_col().unwrap() };
+            let mut taken = Vec::new();
+            for _ in 0..front {
+                taken.push(d.next());
+            }
+            for _ in 0..back {
+                taken.push(d.next_back());
+            }
+            mem::forget(d);
+            drop(taken);
+        });
+        if res.is_err() {
+            return Err(Fail::new(op, "no panic", "panic"));
+        }
+        return zst_post_check(&format!("zero-sized cells: after leaking the drain of {}", op), t);
+    }
     let model = mk_grid(c, r);
     let mut t = tok_array(c, r);
     match js(&case["scenario"]) {
